@@ -114,7 +114,9 @@ PropCountOK(s, n) ==
 Required(s) == IF Has(s, "required") THEN SeqToSet(s.required) ELSE {}
 Props(s)    == IF Has(s, "properties") THEN s.properties ELSE <<>>
 
-Deref(defs, s) == IF Has(s, "ref") THEN defs[s.ref] ELSE s
+\* follow $ref chains (a definition may itself be a bare $ref to another one)
+RECURSIVE Deref(_, _)
+Deref(defs, s) == IF Has(s, "ref") THEN Deref(defs, defs[s.ref]) ELSE s
 
 (***************************************************************************)
 (* Draft-4 validity on the supported keyword set.                          *)
@@ -255,9 +257,12 @@ RECURSIVE RoundTripAllowed(_, _, _, _)
 RoundTripAllowed(defs, s0, d, o) ==
   LET sb == Deref(defs, s0)
       \* polymorphism: a value of a base type is compared through the subtype its discriminator names
-      s == IF Tag(d) = "obj" /\ Has(sb, "discriminator") /\ sb.discriminator \in DOMAIN Val(d)
-              /\ Tag(Val(d)[sb.discriminator]) = "str" /\ Val(Val(d)[sb.discriminator]) \in DOMAIN defs
-           THEN defs[Val(Val(d)[sb.discriminator])] ELSE sb IN
+      dv == IF Tag(d) = "obj" /\ Has(sb, "discriminator") /\ sb.discriminator \in DOMAIN Val(d)
+                 /\ Tag(Val(d)[sb.discriminator]) = "str" THEN Val(Val(d)[sb.discriminator]) ELSE ""
+      \* the subtype is named by its definition name, or by its x-class
+      byClass == {n \in DOMAIN defs : Has(defs[n], "x-class") /\ defs[n]["x-class"] = dv}
+      s == IF dv # "" /\ dv \in DOMAIN defs THEN defs[dv]
+           ELSE IF dv # "" /\ byClass # {} THEN defs[CHOOSE n \in byClass : TRUE] ELSE sb IN
   IF Tag(d) = "obj" THEN
     /\ Tag(o) = "obj"
     /\ LET props == AllProps(defs, s)
